@@ -173,11 +173,13 @@ inline Program generate(vf::Rng& r, const GenOptions& o) {
     }
     p.keys.push_back(k);
   }
+  // some inputs are reachable ONLY as discovered dependencies: the engine first hears of them from a task (possibly on a worker thread)
+  size_t nLeafOnly = (o.discovered && nInputs >= 2 && r.chance(1, 2)) ? 1 + r.below(std::min<size_t>(2, nInputs - 1)) : 0;
   for (size_t i = nInputs; i < n; ++i) {
     KeyDef& k = p.keys[i];
     // candidate targets: lower-indexed keys (DAG) or anything but self when cycles are allowed
     std::vector<int> cand;
-    for (size_t j = 0; j < n; ++j) if (j != i && (o.allowCycles ? (j < i || r.chance(1, 3)) : j < i)) cand.push_back((int)j);
+    for (size_t j = nLeafOnly; j < n; ++j) if (j != i && (o.allowCycles ? (j < i || r.chance(1, 3)) : j < i)) cand.push_back((int)j);
     for (size_t q = cand.size(); q > 1; --q) std::swap(cand[q - 1], cand[r.below(q)]);
     size_t take = std::min<size_t>(cand.size(), 1 + r.below(4));
     size_t pos = 0;
@@ -196,6 +198,7 @@ inline Program generate(vf::Rng& r, const GenOptions& o) {
       k.dyns.push_back(d);
     }
     if (o.discovered && r.chance(1, 3)) {
+      for (size_t q = 0; q < nLeafOnly; ++q) k.leafCandidates.push_back((int)q);
       for (size_t q = pos; q < cand.size(); ++q) if (p.keys[cand[q]].isInput) k.leafCandidates.push_back(cand[q]);
       if (!k.leafCandidates.empty()) k.discoverCount = 1 + (unsigned)r.below(std::min<size_t>(2, k.leafCandidates.size()));
     }
